@@ -438,6 +438,16 @@ func checkValue(c Case) error {
 		}
 	}
 	rec.Extra("field-mutations", uint64(mutated))
+	// (3c) the same with a second message of another shape: the smallest value of the type decoded into a variable that
+	// holds this (usually longer) one must give exactly the smallest value, lists and byte strings cut back included
+	if menc, merr, mp := safeEncode(e, gen.Minimal(e.Type)); merr == nil && !mp && !bytes.Equal(menc, enc) {
+		if herr := gen.ReuseReceiver(e, enc, menc); herr != nil {
+			return stats.Failf(key("receiver-reuse"), "%s: %v (second message: the type's smallest value)", e.Name, herr)
+		}
+		if herr := gen.ReuseReceiver(e, menc, enc); herr != nil {
+			return stats.Failf(key("receiver-reuse"), "%s: %v (first message: the type's smallest value)", e.Name, herr)
+		}
+	}
 
 	// (4) truncation
 	nprefix := 0
